@@ -40,6 +40,8 @@ func c01(tier string) []*explore.Scenario {
 	}
 	out = append(out, c01Payloads(po), c01Payloads(env.PipeOpts{Cap: 0}))
 	out = append(out, c01Seq(po))
+	// the shipped topologies: through a proxy and a demultiplexer (one Serve per client)
+	out = append(out, c16RPCFam("C01", "2unary", false, 1), c16RPCFam("C01", "2unary", true, 1), c16RPCFam("C01", "payloads", true, 0))
 	return out
 }
 
